@@ -9,7 +9,7 @@ import vlib
 LEVEL = "proof"
 PROPS = "Writers/Props_C13.v"
 COQ_FILES = ["Writers/GoBytes.v", "Writers/GoBytesProofs.v", "Writers/PomProps.v", "Writers/PomPropsProofs.v",
-             "Writers/PkgJson.v", "Writers/PkgJsonProofs.v", "Writers/PomDecl.v", "Writers/PomDeclProofs.v", "Writers/PomDeclPropProofs.v", "Writers/PomDeclFullProofs.v",
+             "Writers/PkgJson.v", "Writers/PkgJsonProofs.v", "Writers/PomDecl.v", "Writers/PomDeclProofs.v", "Writers/PomDeclPropProofs.v", "Writers/PomDeclFullProofs.v", "Writers/PomTokens.v", "Writers/PomTokensProofs.v",
              "Writers/PomWriter.v", "Writers/PomWriterProofs.v",
              "Writers/Proofs.v", "Writers/Props_C13.v"]
 COQ_FILES = [f for f in COQ_FILES if os.path.exists(os.path.join(vlib.COQ, "theories", f))]
@@ -38,13 +38,14 @@ MODES = {
         "domains": ["mcase_in_domain", "(fun c => d_multi (mc_chain c) (mc_updates c))", "(fun c => d_lit (mc_chain c) (mc_updates c))",
                     "(fun c => match mc_updates c with [u] => d_prop (mc_chain c) u | _ => false end)",
                     "(fun c => existsb (d_add (mc_chain c)) (mc_updates c))",
-                    "(fun c => mc_chain_ok c && chain_frag (mc_chain c) (mc_updates c))", "mc_claimed"],
-        "domain_names": ["d_full_and_token_domain", "d_multi", "d_lit", "d_prop", "has_d_add_update", "model_compared", "harness_structural_domain"],
+                    "(fun c => mc_chain_ok c && chain_frag (mc_chain c) (mc_updates c))", "mc_tok_dump_ok", "mc_claimed"],
+        "domain_names": ["d_full_and_token_domain", "d_multi", "d_lit", "d_prop", "has_d_add_update", "model_compared", "token_model_compared", "harness_structural_domain"],
         "corr": "maven readWriter.Write (Go): written version declarations and property definitions of every pom of the chain vs "
                 "Writers.PomDecl.write_chain (Coq, vm_compute); Write panics vs Writers.PomWriter.write_panics",
         "theorems": ["pom_decl_write_exact_on_D_full", "pom_decl_write_exact_on_D", "pom_decl_property_update_exact_on_D",
                      "pom_decl_added_management_present",
                      "pom_added_entry_lost_refuted", "pom_decl_no_updates_identity", "pom_write_never_panics",
+                     "pom_tokens_preserved", "pom_no_updates_identity", "pom_comment_inside_version_refuted",
                      "pom_origin_ignored_refuted", "pom_shared_property_refuted", "pom_property_in_parent_refuted"],
         "quick": 500, "thorough": 6000, "per": 25,
     },
@@ -247,7 +248,7 @@ def run_regression(ctx, binp, mode):
 HEADERS = {
     "props": "From Coq Require Import List ZArith NArith Bool.\nFrom Scalibr Require Import Writers.GoBytes Writers.PomProps.\nImport ListNotations.\n",
     "pkgjson": "From Coq Require Import List ZArith NArith Bool.\nFrom Scalibr Require Import Writers.GoBytes Writers.PkgJson.\nImport ListNotations.\n",
-    "pom": "From Coq Require Import List ZArith NArith Bool.\nFrom Scalibr Require Import Writers.GoBytes Writers.PomProps Writers.PomDecl Writers.PomWriter.\nImport ListNotations.\n",
+    "pom": "From Coq Require Import List ZArith NArith Bool.\nFrom Scalibr Require Import Writers.GoBytes Writers.PomProps Writers.PomDecl Writers.PomTokens Writers.PomWriter.\nImport ListNotations.\n",
 }
 
 
@@ -363,12 +364,15 @@ def run(ctx):
                     "(literal versions, any number of updates), pom_decl_property_update_exact_on_D on d_prop (one update of a "
                     "${property} version), pom_decl_added_management_present on d_add (an added managed dependency becomes a "
                     "project-level management declaration of the main pom, wherever the chain has dependencyManagement sections); pom_decl_write_exact_on_D_full on d_multi (SEVERAL updates at once, literal / ${property} / added mixed); the oracle "
-                    "claims d_full = d_multi plus versions that repeat a placeholder name (that rest tied by vm_compute, not proved). ORACLE-ONLY, not modelled: "
-                    "the token level -- that element order, attributes, namespaces, whitespace/text, comments (incl. inside <version>), "
-                    "processing instructions and CDATA survive the forked encoder as the same token sequence, and the inserted "
-                    "dependencyManagement block (encoding/xml token comparison of every written file, strict on the zero-update "
-                    "stream; pom_no_updates_identity / pom_tokens_preserved at token level are not proved); plus the re-read "
-                    "requirements and the Go effective-version reference (eff.go) as cross-checks",
+                    "claims d_full = d_multi plus versions that repeat a placeholder name (that rest tied by vm_compute, not proved). TOKEN LEVEL (PomTokens.v), first step: the writer as a token-stream "
+                    "transformer (copy everything except the content of <version> elements under dependency/parent and of addressed "
+                    "<properties> children), its decisions taken from the declaration-level model; the written token stream of every pom "
+                    "(encoding/xml tokens, interned) is compared with the model on every case without added entries; proved: "
+                    "pom_tokens_preserved, pom_no_updates_identity (decoder/encoder as parameters with decode(encode t)=t, which the "
+                    "per-case comparison of the decoded output validates), pom_comment_inside_version_refuted. ORACLE-ONLY: the inserted "
+                    "dependencyManagement entries/block at token level (their shape, order, indentation), attribute/namespace "
+                    "re-encoding details below the token abstraction, and that the forked decoder/encoder pair really round-trips "
+                    "(checked per case, not proved); plus the re-read requirements and the Go effective-version reference as cross-checks",
         "known_findings_results": known_results,
         "regression_corpus": regression_results,
     })
